@@ -37,8 +37,12 @@ func RunInit(args []string, opts GlobalOptions) error {
 	}
 	plansPath := filepath.Join(target, plansFileName)
 	lockPath := filepath.Join(target, "lock")
-	if err := ensureFileExists(plansPath, 0644); err != nil {
-		return err
+	// A store that still uses the legacy events.jsonl keeps using it: creating
+	// an empty plans.jsonl next to it would take precedence and hide every item.
+	if _, err := os.Stat(filepath.Join(target, oldEventsFileName)); err != nil {
+		if err := ensureFileExists(plansPath, 0644); err != nil {
+			return err
+		}
 	}
 	if err := ensureFileExists(lockPath, 0644); err != nil {
 		return err
